@@ -324,7 +324,8 @@ RefCase ==
     macros |-> Macros, withw |-> WithW,
     defs |-> RefDefs(env, l, WithW),
     exp |-> <<RefExp(env, l, WithW, Thresholds)>>,
-    ql2centre |-> IF l % 2 = 0 THEN QR(RefQl2(env, l)) ELSE <<"none">>,
+    \* (exact rational only for the degrees whose Legendre sums stay within 32 bits for every reference environment)
+    ql2centre |-> IF l \in {2, 4, 6} THEN QR(RefQl2(env, l)) ELSE <<"none">>,
     \* tabulated values for particle 1: [lo, hi] as terms
     tabulated |-> [ q |-> IF l = 4 THEN <<Q(2 * tab.q4 - 1, 20000), Q(2 * tab.q4 + 1, 20000)>>
                           ELSE IF l = 6 THEN <<Q(2 * tab.q6 - 1, 20000), Q(2 * tab.q6 + 1, 20000)>> ELSE << >>,
